@@ -143,6 +143,7 @@ def struct_cfg(draw, topo):
                   Mach=draw(S.fl(0.2, 0.86, 0.3, 0.84)), load_factor=draw(S.fl(0.5, 2.5, 1.0))),
         load_seed=draw(st.integers(0, 10 ** 6)), load_mag=draw(S.logfl(1.0, 4.0, 1e3)),
         eps=draw(st.sampled_from([0.0, 1e-3, 0.03])), seed=draw(st.integers(0, 10 ** 6)),
+        tail=draw(st.sampled_from([False, False, True])) if topo == "aerostruct" else False,
     )
     if "twist_cp" in d["dv"] and model == "wingbox":
         d["dv"]["twist_cp"] = [abs(t) + 0.5 for t in d["dv"]["twist_cp"]]
@@ -230,7 +231,22 @@ def build_model(desc, mode=None):
         return p
     fl = dict(desc["flow"])
     fl.update(masses)
-    return aerostruct_problem([s], fl, compressible=desc["compressible"], mode="auto" if mode is None else mode)
+    surfaces = [s]
+    if desc.get("tail"):
+        # a second, smaller tube surface behind and above the wing (multi-surface aerostructural coupling)
+        tm = mesh * 0.4
+        tm = tm + np.array([float(mesh[:, :, 0].max()) + 3.0 - float(tm[:, :, 0].min()), 0.0, float(mesh[:, :, 2].max()) + 1.5])
+        if sym:
+            tm[:, -1, 1] = 0.0
+        t = struct_surface("tail", tm, sym, "tube", ncp=2, struct_weight_relief=desc["weight_relief"],
+                           with_viscous=desc["viscous"])
+        bt = float(np.max(np.abs(tm[:, :, 1])))
+        ct = float(np.max(tm[-1, :, 0] - tm[0, :, 0]))
+        t["E"] = t["E"] * max(1.0, (bt / (8.0 * ct)) ** 3)
+        t["G"] = 0.4 * t["E"]
+        t["thickness_cp"] = 0.008 * np.ones(2)
+        surfaces.append(t)
+    return aerostruct_problem(surfaces, fl, compressible=desc["compressible"], mode="auto" if mode is None else mode)
 
 
 # ------------------------------------------------------------------------------------------------------------------
@@ -363,7 +379,7 @@ def verdict(desc):
     else:
         out.label("model=" + desc["model"])
         out.label("symmetric" if desc["mesh"]["kind"] == "left" else "fullspan")
-        for k in ("weight_relief", "fuel", "exact", "radius_cp"):
+        for k in ("weight_relief", "fuel", "exact", "radius_cp", "tail"):
             if desc.get(k):
                 out.label(k)
         if desc["dv"].get("taper") == 1.0:
